@@ -1,0 +1,22 @@
+//go:build verif
+
+/*
+SPDX-License-Identifier: Apache-2.0
+*/
+
+package legacyconnection
+
+// VerifReplyForType runs the two steps of handleInboundRequest that depend on the type of the request document's
+// first service block: getMyDIDDoc(type) without a public DID and without routers (created: a new peer DID
+// document was made and stored) and recipientKey of that document (replyKey: a key to send the response from
+// was found).
+func (s *Service) VerifReplyForType(serviceType string) (created, replyKey bool) {
+	doc, err := s.ctx.getMyDIDDoc("", nil, serviceType)
+	if err != nil {
+		return false, false
+	}
+
+	_, err = recipientKey(doc)
+
+	return true, err == nil
+}
